@@ -180,7 +180,7 @@ fn compile_imm(goenv: &GlobalGoEnv, imm: &anf::ImmExpr) -> goast::Expr {
                     extern_fn.go_name
                 ),
                 // the program's entry function is emitted as main0 (Go's main calls it)
-                None if name == "main" || name.ends_with("::main") => "main0".to_string(),
+                None if name == "main" => "main0".to_string(),
                 None => go_ident(name),
             },
             ty: tast_ty_to_go_type(&imm_ty(imm)),
@@ -2269,7 +2269,8 @@ fn compile_fn(goenv: &GlobalGoEnv, gensym: &Gensym, f: anf::Fn) -> goast::Fn {
 
     let go_ret_ty = tast_ty_to_go_type(&f.ret_ty);
 
-    let is_entry = f.name == "main" || f.name.ends_with("::main");
+    // only the root package's `main` is the entry (its functions carry no package prefix); `Lib::main` is an ordinary function
+    let is_entry = f.name == "main";
     let patched_name = if is_entry {
         "main0".to_string()
     } else {
